@@ -13,3 +13,12 @@ mod generated_app;
 mod interner;
 mod path_parameters;
 mod traits;
+
+/// Verification hook (off unless built with `--cfg pavex_verif`): run the domain guard validator
+/// and return the `matchit` pattern derived from an accepted guard.
+#[cfg(pavex_verif)]
+pub fn verif_domain_guard(domain: &str) -> Result<String, String> {
+    analyses::domain::DomainGuard::new(domain.to_owned())
+        .map(|g| g.matchit_pattern())
+        .map_err(|e| e.to_string())
+}
